@@ -17,8 +17,10 @@ A payload descriptor is a dict:
                 ("execute", descriptor)       runtime.execute(...) another payload from inside
                 ("section", n)                n synchronous sections with a scheduling point
                                               inside (overlap detector of C11)
+                ("service", descriptor)       create an instance of a fresh @service class
                 ("call", name)                call env.shared[name](env)
-``cleanup``   None | ("sync", k) | ("shield", seconds)  (what its ``finally`` does)
+``cleanup``   None | ("sync", k) | ("shield", seconds) | ("sync-adopt", descriptor) |
+              ("shield-adopt", seconds, descriptor)      (what its ``finally`` does)
 ``args`` / ``kwargs``   passed through adopt / execute and checked on arrival
 """
 from __future__ import annotations
@@ -169,6 +171,10 @@ class Kit:
         if op == "adopt":
             self.submit(step[1], "adopt")
             return True
+        if op == "service":
+            self.env.log("service-create", id=step[1]["id"])
+            self.env.shared.setdefault("keep", []).append(self.service_class(step[1])())
+            return True
         if op == "call":
             self.env.shared[step[1]](self.env)
             return True
@@ -193,6 +199,8 @@ class Kit:
         if cleanup and cleanup[0] == "sync":
             for index in range(cleanup[1]):
                 self.env.log("cleanup-step", id=desc["id"], index=index)
+        if cleanup and cleanup[0] in ("sync-adopt", "shield-adopt"):
+            self.submit(cleanup[-1], "adopt")
 
     def _asyncio(self, desc):
         kit = self
@@ -279,7 +287,7 @@ class Kit:
                 raise
             finally:
                 cleanup = desc.get("cleanup")
-                if cleanup and cleanup[0] == "shield":
+                if cleanup and cleanup[0] in ("shield", "shield-adopt"):
                     with trio.CancelScope(shield=True):
                         await trio.sleep(cleanup[1])
                 kit._cleanup_sync(desc)
